@@ -316,6 +316,62 @@ def part_callshapes(tier):
   return n, n, viols, [{'methods': 'debug info warning warn error critical exception log', 'loggers': 'the four record-logger kinds'}]
 
 
+def part_trigger_and_afterlife(tier):
+  """Messages logged while the start trigger runs belong to the run; logger objects kept from a finished run neither alter
+  its record nor reach a later run."""
+  L = progs.lib()
+  h = L['htf']
+  from openhtf.util import logs  # pylint: disable=g-import-not-at-top
+  viols, n = [], 0
+  for ts_mode in ('ok', 'stop'):
+    kept = []
+
+    def ts(state):
+      test = state.test_api
+      uid = state.execution_uid
+      test.logger.info('T-own')
+      logging.getLogger('openhtf.core.trigger').info('T-fw')
+      logs.get_record_logger_for(uid).getChild('helper').info('T-rec')
+      kept.extend([test.logger, logs.get_record_logger_for(uid).getChild('helper')])
+      test.dut_id = 'dut'
+      return h.PhaseResult.STOP if ts_mode == 'stop' else None
+
+    def main(test):
+      test.logger.info('M-own')
+      kept.append(test.logger)
+
+    ts.__name__ = 'ts'
+    test = h.Test(h.PhaseOptions(name='main')(main))
+    cap = htf.Capture()
+    test.add_output_callbacks(cap)
+    test.execute(test_start=h.PhaseOptions(name='ts', requires_state=True)(ts))
+    rec1 = cap.records[0]
+    n += 1
+    case = {'trigger': ts_mode}
+    want = ['T-own', 'T-fw', 'T-rec'] + (['M-own'] if ts_mode == 'ok' else [])
+    got = [r.message for r in rec1.log_records if r.message in ('T-own', 'T-fw', 'T-rec', 'M-own')]
+    if sorted(got) != sorted(want):
+      viols.append(('trigger:lost-or-extra:%s' % ts_mode, 'run whose start trigger %s: recorded %r of the messages %r logged during the run'
+                    % ('returns STOP' if ts_mode == 'stop' else 'passes', got, want), {'part': 'trigger', 'case': case}))
+    # afterlife: the run is over; its logger objects are used again, then the same Test runs once more
+    size1 = len(rec1.log_records)
+    rendered1 = len(rec1.as_base_types()['log_records'])
+    for lg in kept:
+      lg.warning('LATE')
+    del cap.records[:]
+    kept_before = len(kept)
+    test.execute(test_start=h.PhaseOptions(name='ts', requires_state=True)(ts))
+    rec2 = cap.records[0]
+    n += 1
+    if len(rec1.log_records) != size1 or len(rec1.as_base_types()['log_records']) != rendered1:
+      viols.append(('afterlife:finished-record-grew:%s' % ts_mode, 'the record of the finished run grew from %d to %d log records when its '
+                    'logger objects were used after the run' % (size1, len(rec1.log_records)), {'part': 'trigger', 'case': case}))
+    if any(r.message == 'LATE' for r in rec2.log_records):
+      viols.append(('afterlife:leaked-into-next-run:%s' % ts_mode, 'messages logged through a finished run\'s loggers appear in the next run',
+                    {'part': 'trigger', 'case': case}))
+  return n, n, viols, [{'trigger': ['passes', 'returns STOP'], 'afterlife': 'kept logger objects used after the run, then a second run'}]
+
+
 def part_histories(tier):
   L = progs.lib()
   h = L['htf']
@@ -530,11 +586,18 @@ def _callshapes_worker(tier):
   return part_callshapes(tier)
 
 
+def _trigger_worker(tier):
+  return part_trigger_and_afterlife(tier)
+
+
 def run(tier):
   rep = common.Report(PID, tier, 'model_checking')
   progs.lib()
-  (n1, d1, v1, s1), (n2, d2, v2, s2), (n3, d3, v3, s3), (n4, d4, v4, s4) = common.pmap(
-      lambda f: f(tier), [_inputs_worker, _hist_worker, _levels_worker, _callshapes_worker], chunksize=1)
+  (n1, d1, v1, s1), (n2, d2, v2, s2), (n3, d3, v3, s3), (n4, d4, v4, s4), (n5, d5, v5, s5) = common.pmap(
+      lambda f: f(tier), [_inputs_worker, _hist_worker, _levels_worker, _callshapes_worker, _trigger_worker], chunksize=1)
+  rep.merge_violations(v5)
+  rep.add_part('start trigger and afterlife of logger objects', evaluations=n5, distinct_nontrivial=d5, states=n5, transitions=n5,
+               traces_validated_against_impl=n5, exhaustive=True, samples=s5 or [{}])
   rep.merge_violations(v4)
   rep.add_part('call shapes x record-logger kinds', evaluations=n4, distinct_nontrivial=d4, states=n4, transitions=n4,
                traces_validated_against_impl=n4, exhaustive=True, samples=s4 or [{}])
@@ -583,7 +646,8 @@ def replay(art):
     for b in bad:
       print('VIOLATED', b[0], b[1])
     return 1 if bad else 0
-  part = {'inputs': part_inputs, 'levels': part_levels, 'callshapes': part_callshapes}.get(r.get('part'), part_histories)
+  part = {'inputs': part_inputs, 'levels': part_levels, 'callshapes': part_callshapes,
+          'trigger': part_trigger_and_afterlife}.get(r.get('part'), part_histories)
   n, d, viols, _ = part('quick')
   hit = [v for v in viols if v[0] == art['signature']]
   for v in hit[:3]:
